@@ -38,9 +38,12 @@ PROPS["C03"] = {
     "level_note": _SESS_NOTE,
 }
 PROPS["C04"] = {
-    "streams": ["sess-ack", "sess-base"], "audit": "C04.lean", "shrink": True, "clauses": ["C04"],
-    # C04 speaks about the tracked sequence number: tuples are reduced to (seq)
-    "compare_parts": {"sess-ack": {"parts": ["track", "pos", "stale"], "tuples": "seq"}, "sess-base": {"parts": ["track", "pos", "stale"], "tuples": "seq"}},
+    "streams": ["sess-ack", "sess-base", "sess-save", "c08"], "audit": "C04.lean", "shrink": True, "clauses": ["C04"],
+    # C04 speaks about the tracked sequence number: tuples are reduced to (seq).  "written by the next save": the save-protocol stream
+    # (micro-stepped and overlapping savers, a saver blocked at the lock while acknowledgements arrive) is compared on what a save writes;
+    # of the rollback stream only the status field is used (`offset-rewritten`: client.OpenStream moved the tracked offset object it was given)
+    "compare_parts": {"sess-ack": {"parts": ["track", "pos", "stale"], "tuples": "seq"}, "sess-base": {"parts": ["track", "pos", "stale"], "tuples": "seq"},
+                      "sess-save": {"parts": ["track", "pos", "stale", "written", "nowrite", "waiting"], "tuples": "seq"}, "c08": {"fields": [0]}},
     "rule": _SESS_RULE, "assumptions": _SESS_ASSUME + ["acknowledgements of one and the same vBucket are issued one at a time"],
     "design_ref": "DESIGN.md §7 C04",
     "level_text": "Kernel-checked (Props/C04): for ANY order and repetition of acknowledgements and absorbed events the tracked position of an assigned vBucket is the running maximum of the settled seqnos starting at the resume position; TrackOffset reports are non-decreasing and end at the position; out-of-range acknowledgements change nothing but the flag and never create a checkpoint; acknowledgements on different vBuckets commute. Monitor on real traces: no regressing track, ack tracks its own seqno, no lost ack.",
